@@ -609,7 +609,7 @@ def run_idle(rng, drv, profile, tid):
         do(ev0("Start"))
     # --- who binds before the sweep, who after
     cl = [(slots[0], sides[0]), (slots[1], sides[1 % len(sides)])]
-    if len(slots) > 3 and rng.random() < 0.3:
+    if len(slots) > 3 and rng.random() < 0.4:
         cl.append((slots[2], sides[0]))          # a second connection of the first side
     early = [x for x in cl if rng.random() < 0.6]
     for (c, s) in early:
@@ -638,6 +638,14 @@ def run_idle(rng, drv, profile, tid):
             to_sweep(1)
     for (c, s) in order:
         cmd(c, type="add", phase=rng.choice(["p3", "p4"]), body="b3")
+    # --- the older of two connections of one side goes away; the newer one stays subscribed
+    if len(cl) > 2 and rng.random() < 0.6:
+        first = [c for (c, s_) in order if s_ == cl[0][1]]
+        if len(first) == 2 and up(first[0]) and up(first[1]):
+            if rng.random() < 0.5:
+                cmd(first[0], type="close", mailbox=ABSENT, mood=ABSENT)
+            if up(first[0]):
+                do(ev0("Drop", c=first[0]))
     # --- a long silence with everybody subscribed
     if rng.random() < 0.7:
         exp = drv.to_ticks(drv.m["tap"].CHANNEL_EXPIRATION_TIME)
